@@ -76,6 +76,9 @@ def run(chk, maxlen, nrandom, explain=False):
             for _ in range(max(10, nrandom // 100)):
                 outs = rng.choices(range(6), weights=[4, 3, 3, 3, 1, 1], k=rng.randint(1, 10))
                 cases.append((effect, eidx, True, outs, realise(outs, True, rng), REQ, True, True, False, "context-e2", deff))
+            # ... also on an EMPTY policy (the matcher judged once against empty rule fields, combined by e2)
+            cases.append((effect, eidx, True, [], [], ("", "", ""), True, False, True, "context-e2", deff))
+            cases.append((effect, eidx, True, [], [], REQ, True, False, False, "context-e2", deff))
     # G: a user-registered function in the matcher that itself calls enforce() (nested request matching its own
     #    allow and deny rules): the nested call must not disturb the outer decision
     for _ in range(max(200, nrandom // 4)):
